@@ -5,6 +5,7 @@ import (
 	"io"
 	"os"
 	"path"
+	"strings"
 
 	"github.com/friendsofgo/errors"
 )
@@ -54,6 +55,8 @@ func (s *FileOutputStore) Reader(jobID string, taskName string, outputName strin
 }
 
 func (s *FileOutputStore) buildPath(jobID string, taskName string, outputName string) string {
+	// A task name can contain path separators: escape them, so the file is always placed inside the directory of the job
+	taskName = strings.NewReplacer("%", "%25", "/", "%2F").Replace(taskName)
 	return path.Join(s.path, jobID, fmt.Sprintf("%s-%s.log", taskName, outputName))
 }
 
